@@ -74,4 +74,20 @@ def model_c():
     return {'cells': cells, 'arrays': {}, 'names': {'%s|BASE' % B: cell('U', 'A1', C)}, 'sheets': [[B, 'S'], [C, 'U']]}
 
 
-MODELS = {'a': model_a, 'b': model_b, 'c': model_c}
+def model_d():
+    """a 2x3 block read as a whole and cell by cell; a sparse range with several unpopulated cells."""
+    cells = {
+        K('S', 'A1'): const(('n', 1.0)), K('S', 'B1'): const(('n', 2.0)), K('S', 'C1'): const(('n', 3.0)),
+        K('S', 'A2'): const(('n', 4.0)), K('S', 'B2'): const(('n', 5.0)), K('S', 'C2'): const(('n', 6.0)),
+        K('S', 'E1'): fn('SUM', rng('S', 'A1:C2')),
+        K('S', 'E2'): op('-', op('*', cell('S', 'B1'), num(100)), cell('S', 'A2')),
+        K('S', 'E3'): op('&', cell('S', 'C1'), cell('S', 'B2')),
+        K('S', 'E4'): op('+', ['name', B, 'BLOCK_TOTAL'], cell('S', 'C2')),
+        K('S', 'G1'): const(('n', 7.0)), K('S', 'G4'): const(('n', 9.0)),
+        K('S', 'H1'): fn('SUM', rng('S', 'G1:G5')),
+        K('S', 'H2'): op('+', fn('COUNT', rng('S', 'G1:G5')), cell('S', 'G3')),
+    }
+    return {'cells': cells, 'arrays': {}, 'names': {'%s|BLOCK_TOTAL' % B: cell('S', 'E1')}, 'sheets': [[B, 'S']]}
+
+
+MODELS = {'a': model_a, 'b': model_b, 'c': model_c, 'd': model_d}
